@@ -836,7 +836,9 @@ func (c *ChannelArbitrator) relaunchResolvers(commitSet *CommitSet,
 			},
 		)
 
-		anchorResolver.SupplementState(chanState)
+		if chanState != nil {
+			anchorResolver.SupplementState(chanState)
+		}
 
 		unresolvedContracts = append(unresolvedContracts, anchorResolver)
 
@@ -2450,7 +2452,9 @@ func (c *ChannelArbitrator) prepContractResolutions(
 			contractResolutions.AnchorResolution.CommitAnchor,
 			height, c.cfg.ChanPoint, resolverCfg,
 		)
-		anchorResolver.SupplementState(chanState)
+		if chanState != nil {
+			anchorResolver.SupplementState(chanState)
+		}
 
 		htlcResolvers = append(htlcResolvers, anchorResolver)
 	}
